@@ -189,6 +189,10 @@ def revolve(
     if transform is not None:
         # apply transform to vertices
         vertices = tf.transform_points(vertices, transform)
+        if tf.flips_winding(transform):
+            # a mirroring transform turns the solid inside out
+            # unless the winding of every face is reversed
+            faces = np.ascontiguousarray(np.fliplr(faces))
 
     # create the mesh from our vertices and faces
     mesh = Trimesh(vertices=vertices, faces=faces, **kwargs)
